@@ -316,12 +316,13 @@ job("r3.bn_mod_legendre.w8.n2", "bn3.c", cfg(8, True, bitlen=16, extra=["VF_FN_m
 
 # ------------------------------------------------------------------ bn_mod_sqrt (round 4): light callee contracts (contracts/bn_light.h)
 for var, extra, txt in (("stub", [], "frame (only bn->digits / bn->num), status set {0, -1, EINVAL, EOVERFLOW}, EINVAL for an even or zero modulus, well-formed result on success, termination of both Tonelli-Shanks loops"),
+                        ("range", ["VF_MS_RANGE"], "the same plus: success implies result < m"),
                         ("root", ["VF_MS_VALUE"], "the same plus: success implies result^2 == input (mod m)")):
     job("r3.bn_mod_sqrt.%s.w8.n7" % var, "bn3.c",
         cfg(8, True, bitlen=56, extra=["VF_FN_mod_sqrt", "VF_BN_LIGHT_SET"] + extra + vb(56)),
         enforce=["bn_mod_sqrt"], replace=MS_REPL, functions=["bn_mod_sqrt"], route="bounded", backend="kissat",
         bound="W = 8, build with BN_MAX_DIGITS = 7 (every capacity, value and modulus of that build); both loops closed by loop contracts; the 19 callees replaced by the light contracts of contracts/bn_light.h (same requires/assigns, subset of the ensures of their enforced C01 contracts): " + txt,
-        loops=loops_file("mod_sqrt_lc", ["bn_mod_sqrt"], maxd=7), foreach=[{"SZ": 1, "MAXD": 7}],
+        loops=loops_file("mod_sqrt_lc" + ("_range" if var == "range" else ""), ["bn_mod_sqrt"], maxd=7, variant=("ms_range" if var == "range" else None)), foreach=[{"SZ": 1, "MAXD": 7}],
         tier="thorough", timeout=2400, timeout_thorough=2400, mem_gb=30, cbmc=["--object-bits", "11"])
 
 # ------------------------------------------------------------------ tier overrides from measured times (quick: <= ~90 s each on an idle 16-core box)
